@@ -1923,3 +1923,120 @@ Proof.
   rewrite send_disc, send_keep, send_pushed, send_out, send_prefill, send_reg, send_regat, send_unregat.
   repeat split; reflexivity.
 Qed.
+
+(* ------------------------------------------------------------------ *)
+(* the concrete RTP cache meets the two cache facts                    *)
+(* ------------------------------------------------------------------ *)
+Lemma rc_snap_empty : forall g, rc_snap (rc_empty g) = [].
+Proof. destruct g; reflexivity. Qed.
+
+Lemma rc_snap_add : forall ca p x, In x (rc_snap (rc_add ca p)) -> In x (rc_snap ca) \/ x = p.
+Proof.
+  intros ca p x. unfold rc_add.
+  assert (Hgop : In x (rc_snap (if rc_gopon ca
+            then if p_key p
+              then {| rc_gopon := true; rc_vps := rc_vps ca; rc_sps := rc_sps ca; rc_pps := rc_pps ca; rc_gop := [p] |}
+              else match rc_gop ca with
+                   | [] => ca
+                   | _ :: _ => {| rc_gopon := true; rc_vps := rc_vps ca; rc_sps := rc_sps ca; rc_pps := rc_pps ca;
+                                  rc_gop := rc_gop ca ++ [p] |}
+                   end
+            else ca)) -> In x (rc_snap ca) \/ x = p).
+  { unfold rc_snap. destruct (rc_gopon ca) eqn:Hg; [|simpl; rewrite Hg; auto].
+    destruct (p_key p).
+    - simpl. rewrite !in_app_iff. simpl. intuition auto.
+    - destruct (rc_gop ca) eqn:Hgp; simpl; rewrite ?Hg, ?Hgp; simpl; rewrite ?in_app_iff; simpl; rewrite ?in_app_iff; simpl; rewrite ?Hg, ?Hgp; simpl; intuition auto. }
+  assert (Hset : forall v s q, 
+     (v = Some p \/ v = rc_vps ca) -> (s = Some p \/ s = rc_sps ca) -> (q = Some p \/ q = rc_pps ca) ->
+     In x (rc_snap {| rc_gopon := rc_gopon ca; rc_vps := v; rc_sps := s; rc_pps := q; rc_gop := rc_gop ca |}) ->
+     In x (rc_snap ca) \/ x = p).
+  { intros v s q Hv Hs Hq. unfold rc_snap. simpl. rewrite !in_app_iff.
+    destruct Hv as [-> | ->], Hs as [-> | ->], Hq as [-> | ->]; simpl; intuition auto. }
+  destruct (p_kind p) as [|pp|pp]; [auto| |exact Hgop].
+  destruct pp as [[[?|?|]|[?|?|]|]|[[?|?|]|[?|?|]|]|]; try exact Hgop; apply Hset; auto.
+Qed.
+
+(* ------------------------------------------------------------------ *)
+(* concrete runs (rcache instance, LtsWire.lrun)                       *)
+(* ------------------------------------------------------------------ *)
+Definition mkp (i k : Z) : pkt := {| p_id := i; p_kind := k |}.
+
+(* D1 (repeat) on the code as it was: the publisher caches p1, the attacher snapshots and registers,
+   then the publisher broadcasts p1: the consumer receives p1 from the snapshot and again live *)
+Definition d1_repeat_case : lcase :=
+  {| l_var := original; l_n := 1; l_maxq := 8; l_gop := true;
+     l_pkts := [mkp 1 3]; l_stop := [];
+     l_sched := [TPub; TPub; TAtt 0; TAtt 0; TPub; TAtt 0; TCons 0; TCons 0; TCons 0; TCons 0];
+     l_panic := [] |}.
+
+Example at_most_once_refuted :
+  let k := s_cs (lrun d1_repeat_case) 0 in
+  NoDup (map p_id (l_pkts d1_repeat_case)) /\ NoDup (map p_id (c_prefill k)) /\
+  c_out k = [mkp 1 3; mkp 1 3] /\ ~ NoDup (map p_id (c_out k)).
+Proof.
+  vm_compute. repeat split.
+  - constructor; [intros []|constructor].
+  - constructor; [intros []|constructor].
+  - intro H. inversion H as [|? ? Hn _]. apply Hn. left. reflexivity.
+Qed.
+
+(* the same schedule (plus the steps the blocked attacher still needs) on the repaired code: the
+   attacher waits for the join mutex, so its snapshot already follows the broadcast of p1 *)
+Example at_most_once_fixed_on_witness :
+  let k := s_cs (lrun {| l_var := fixed; l_n := l_n d1_repeat_case; l_maxq := l_maxq d1_repeat_case;
+                         l_gop := l_gop d1_repeat_case; l_pkts := l_pkts d1_repeat_case;
+                         l_stop := l_stop d1_repeat_case;
+                         l_sched := l_sched d1_repeat_case ++ [TAtt 0; TCons 0; TCons 0; TCons 0];
+                         l_panic := l_panic d1_repeat_case |}) 0 in
+  c_out k = [mkp 1 3].
+Proof. vm_compute. reflexivity. Qed.
+
+(* non-vacuity: 2 consumers, 6 packets, maxq = 1.  Consumer 0 attaches first and is slow: at the
+   second key frame (id 5) its backlog is 4 > maxq, so it drops 5 and 6.  Consumer 1 attaches after
+   3 packets (snapshot = SPS 1, GOP 2 3) and keeps up. *)
+Definition nonvacuous_case : lcase :=
+  {| l_var := fixed; l_n := 2; l_maxq := 1; l_gop := true;
+     l_pkts := [mkp 1 3; mkp 2 2; mkp 3 1; mkp 4 1; mkp 5 2; mkp 6 1]; l_stop := [];
+     l_sched := repeat (TAtt 0) 3 ++ repeat TPub 9 ++ repeat (TAtt 1) 3 ++ repeat TPub 3 ++
+                repeat (TCons 1) 8 ++ repeat TPub 6 ++ repeat (TCons 0) 8 ++ repeat (TCons 1) 4;
+     l_panic := [] |}.
+
+Example fanout_nonvacuous :
+  let s := lrun nonvacuous_case in
+  let k0 := s_cs s 0 in
+  let k1 := s_cs s 1 in
+  NoDup (map p_id (l_pkts nonvacuous_case)) /\
+  map p_id (c_out k0) = [1; 2; 3; 4]%Z /\
+  map p_id (c_out k1) = [1; 2; 3; 4; 5; 6]%Z /\
+  c_prefill k0 = [] /\
+  map p_id (c_prefill k1) = [1; 2; 3]%Z /\
+  c_keep k0 = [true; true; true; true; false; false] /\
+  c_keep k1 = [true; true; true] /\
+  map p_id (window (s_sent s) (c_regat k0) (c_unregat k0)) = [1; 2; 3; 4; 5; 6]%Z /\
+  map p_id (window (s_sent s) (c_regat k1) (c_unregat k1)) = [4; 5; 6]%Z /\
+  map p_id (select (c_keep k0) (window (s_sent s) (c_regat k0) (c_unregat k0))) = [1; 2; 3; 4]%Z /\
+  map p_id (live_out k1) = [4; 5; 6]%Z.
+Proof.
+  vm_compute. repeat split.
+  repeat (constructor; [simpl; intuition discriminate|]). constructor.
+Qed.
+
+(* counterexample to the unrestricted "TAtt c' leaves s_cs s c unchanged": consumer 1 holds the
+   join mutex (A1), consumer 0 is blocked in Lock() (A0W); when 1 registers and unlocks, the mutex
+   is handed to 0, whose snapshot is taken in the same atomic step *)
+Definition handoff_case : lcase :=
+  {| l_var := fixed; l_n := 2; l_maxq := 8; l_gop := true;
+     l_pkts := [mkp 1 3]; l_stop := [];
+     l_sched := [TPub; TPub; TPub; TAtt 1; TAtt 0]; l_panic := [] |}.
+
+Example noninterference_handoff_witness :
+  let c := handoff_case in
+  let s := lrun c in
+  exists s',
+    step (l_var c) (l_maxq c) rcache (rc_empty (l_gop c)) rc_add rc_snap (l_n c)
+         (fun i => nth i (l_panic c) O) s (TAtt 1) = Some s' /\
+    s_att s 0 = A0W /\ s_cs s 0 = cons0 /\ s_att s' 0 = A1 /\ s_cs s' 0 = fresh [mkp 1 3] /\
+    s_cs s' 0 <> s_cs s 0.
+Proof.
+  vm_compute. eexists. split; [reflexivity|]. repeat split. discriminate.
+Qed.
